@@ -76,6 +76,22 @@ CHECKS = {
         },
         "assumptions": COMMON_ASSUME + ["partial parser on an input with no digit before the first non-digit: outcome not defined by the statement, only indices <= len are checked"],
     },
+    "C05": {
+        "bin": "c05",
+        "quick": cfgs(["rdx", "cmprdxfmt"]),
+        "thorough": cfgs(["rdx", "cmprdxfmt", "p2", "rdxfmt"]),
+        "rule": "per radix 2..36 (except 10) and per mixed-base format (4/2, 8/2, 16/2, 32/2, 16/4 x exponent-digit radix {10, mantissa radix, base}): "
+                "ME (every significand with <= d digits x every exponent in the finite range +-8), MEV (spelling variants), CF (continued-fraction "
+                "near-halfway significands per exponent, non-power-of-two radices), HW (exact halfway expansions per binade for even radices, 80-digit "
+                "truncations for odd radices, with perturbations), BD (boundaries, absurd exponents), MIXED (short significands with 0-2 fraction digits x "
+                "every exponent; exact halfway numerals per binade with sticky digits 300 places later); f32 and f64; parse and parse_partial; judged "
+                "by exact rational arithmetic; non-trivial = non-zero values",
+        "bounds": {
+            "quick": "ME d = 6 (radix<=4), 3 (<=10), 2 (>10); CF 3 per (exponent, range); HW 3 patterns, every 4th binade; MIXED d=2",
+            "thorough": "ME d = 6 (radix<=6), 4 (<=16), 3 (>16); CF 12; HW 8 patterns, every binade; MIXED d=3",
+        },
+        "assumptions": COMMON_ASSUME,
+    },
 }
 
 # properties not claimed (reason). Kept current by hand.
